@@ -439,6 +439,9 @@ def mk_executor(crate, cap=8, loop_bound=12, inline=None, extra_summaries=None, 
                   havoc=lambda name: any(r.search(name) for r in havoc_rx),
                   max_paths=max_paths)
     ex.crate = crate
+    if not hasattr(crate, "impl_index"):
+        crate.build_impl_index()
+    ex.drop_impls = {k[0]: v[0] for k, v in crate.impl_index.items() if k[1] == "Drop" and k[2] == "drop" and len(v) == 1}
     ex.named_consts = crate.consts
     ex.find_body = crate.resolve_callee
     return ex
